@@ -6,6 +6,7 @@ import RedisGoModel.Driver.Serve
 import RedisGoModel.Driver.Apply
 import RedisGoModel.Driver.Wal
 import RedisGoModel.Driver.Codec
+import RedisGoModel.Driver.Rendezvous
 /-! Correspondence driver: reads one observed operation per line on stdin, recomputes it with the model, prints
     `MISMATCH <lineno> <detail>` for every disagreement and a final `SUMMARY` line.  Each engine recognises its own line tags. -/
 open Driver
@@ -19,6 +20,7 @@ structure St where
   sv : ServeSt := {}
   ap : ApplySt := {}
   wal : WalSt := {}
+  rz : RzSt := {}
 
 /-- try the engines in turn; the first that recognises the line judges it -/
 def judge (st : St) (fs : List String) : St × Option (Except String Bool) :=
@@ -33,6 +35,9 @@ def judge (st : St) (fs : List String) : St × Option (Except String Bool) :=
   if v.isSome then (st, v) else
   let (wal', v) := walLine st.wal fs
   let st := { st with wal := wal' }
+  if v.isSome then (st, v) else
+  let (rz', v) := rendezvousLine st.rz fs
+  let st := { st with rz := rz' }
   if v.isSome then (st, v) else
   (st, ((codecLine fs).orElse fun _ => globLine fs).orElse fun _ => parserLine fs)
 
